@@ -77,11 +77,8 @@ one_write(uint32_t addr, uint32_t n, const RegisterAtom *words, const char *pnam
         mc_log_hex("storage-after", after, total * 2);
     }
     bool ok = true;
-    /* the caller's buffer is input only */
-    if (memcmp(buf, words, n * sizeof(RegisterAtom)) != 0) {
-        mc_fail("C02/caller-buffer-unchanged", "pattern %s: the request buffer was modified", pname);
-        ok = false;
-    }
+    /* whether the library leaves the caller's n words as they were is not part
+     * of the statement (only accesses outside them are forbidden): not checked */
     if (ok && tb.cb_oob) {
         mc_fail("C02/area-bounds", "pattern %s: an area callback was asked for words outside its area", pname);
         ok = false;
